@@ -1,3 +1,5 @@
+//go:build g_heavy
+
 package worlds
 
 // Independent implementation of the Aurora file-hash format, written from the
